@@ -114,25 +114,37 @@ fn main() {
             if rp.thorough {
                 plan::THOROUGH.store(true, std::sync::atomic::Ordering::Relaxed);
             }
-            let mut rr = run_replay(&rp);
-            let mut same = rr.violations.iter().any(|v| v.signature == rp.signature);
-            if !same && rr.harness_error.is_none() && !rr.stuck {
+            let prelude_first = args.iter().any(|a| a == "--prelude-first");
+            if prelude_first {
+                // the runs the worker process had made before this one, in a process that has done
+                // nothing else yet (state kept by the library is often set once and for all)
+                if let Some((from, upto)) = rp.prelude {
+                    for i in from..upto {
+                        let pl = plan::gen_plan(&rp.property, rp.found_at.0, i);
+                        let r = runner::run_plan(&pl, None);
+                        if r.stuck {
+                            break;
+                        }
+                    }
+                }
+            }
+            let rr = run_replay(&rp);
+            let same = rr.violations.iter().any(|v| v.signature == rp.signature);
+            if !same && !prelude_first && rr.harness_error.is_none() && !rr.stuck {
                 // not on its own: does it show after the runs the worker process had made before it?
                 if let Some((from, upto)) = rp.prelude {
                     if upto > from && upto - from <= 400_000 {
-                        for i in from..upto {
-                            let pl = plan::gen_plan(&rp.property, rp.found_at.0, i);
-                            let r = runner::run_plan(&pl, None);
-                            if r.stuck {
-                                break;
-                            }
+                        let exe = std::env::current_exe().expect("current_exe");
+                        let mut cmd = std::process::Command::new(exe);
+                        cmd.arg("replay").arg(path).arg("--prelude-first");
+                        if args.iter().any(|a| a == "--tail") {
+                            cmd.arg("--tail");
                         }
-                        let rr2 = run_replay(&rp);
-                        if rr2.violations.iter().any(|v| v.signature == rp.signature) {
+                        let st = cmd.status().expect("re-run with prelude");
+                        if st.code() == Some(1) {
                             println!("(not reproduced on its own, but after the {} runs the worker process had made before it: the library keeps state from one call to the next)", upto - from);
-                            rr = rr2;
-                            same = true;
                         }
+                        std::process::exit(st.code().unwrap_or(2));
                     }
                 }
             }
